@@ -124,6 +124,15 @@ def run(ctx):
         ctx.require(ex.get("prog") == "Into::into(Vec::remove(cmd, 0))" and ex.get("args") == "cmd", "R18.5", "cli-exec-split",
                     "no shell: prog = cmd.remove(0), args = cmd", ic.loc(ic.line), detail=str(ex),
                     fail="without a shell the CLI builds prog/args as %s: words are transformed" % ex)
+        # ... and `cmd` is the argument vector itself: bound once to args.program.clone(), never reassigned, and touched only by
+        # is_empty / remove(0) / join
+        lets = [pathx.desc(st["i"]) for st in thir.walk(root) if isinstance(st, dict) and st.get("k") == "let" and st["p"].get("k") == "bind" and st["p"].get("n") == "cmd"
+                and isinstance(st.get("i"), dict)]
+        reass = [pathx.desc(a["b"])[:60] for a in thir.find(root, "assign") if pathx.desc(a["a"]) == "cmd"]
+        uses = sorted({strip_generics(c).split("::")[-1] for c, nd in thir.calls_in(root) if not pathx.is_tracing(nd) and nd["a"] and pathx.desc(nd["a"][0]) == "cmd"})
+        ctx.require(lets == ["Clone::clone(args.program)"] and not reass and set(uses) <= {"is_empty", "remove", "join", "deref", "deref_mut", "len"}, "R18.5", "cli-words-untouched",
+                    "the command words are args.program itself, not re-split or rewritten", ic.loc(ic.line), detail="%s %s %s" % (lets, reass, uses),
+                    fail="interpret_command_args rewrites the command words before building the program (let: %s, reassigned to: %s, operations: %s): arguments are split or transformed" % (lets, reass, uses))
         ctx.require(sh.get("command") == "slice::join(cmd, ' ')" or sh.get("command") == "Join::join(cmd, ' ')" or (sh.get("command") or "").endswith("join(cmd, ' ')"),
                     "R18.5", "cli-shell-join", "with a shell the command string is the words joined by one space", ic.loc(ic.line), detail=str(sh),
                     fail="with a shell the CLI builds the command string as %s" % sh.get("command"))
